@@ -5,11 +5,8 @@
    every run (Gen/S_dispatch.v); [resolve] (Model/Dispatch.v) interprets them.
 
    FULL statements that are FALSE of the code as it stands (kept here as comments, refuted below):
-     (F1) forall cls w msig, In w wrappers -> method_sig tables cls (target_name w) = Some msig -> wrapper_ok msig w = true
-          — false: sparse.clip converts its receiver to COO and silently ignores `out`  (wrappers_faithful_refuted);
      (F2) forall cls (op, ss) in op_classes, s1 s2 in ss, resolve cls s1 = resolve cls s2
-          — false: sparse.clip / np.clip return COO for GCXS/DOK receivers while x.clip keeps the
-            format (spellings_coerced_refuted); an operation a class lacks fails with AttributeError in one spelling
+          — false: an operation a class lacks fails with AttributeError in one spelling
             and TypeError in another (unsupported_exception_class_refuted); COO/GCXS isnan, isinf, mT
             (and, since the repair ea90286 of the DOK stubs, DOK isnan/isinf) have a second,
             independent algorithm beside the generic path — agreement is then checked by correspondence only
@@ -39,19 +36,13 @@ Theorem wrapper_ok_sound :
 Proof. exact wrapper_ok_sound_proof. Qed.
 Print Assumptions wrapper_ok_sound.
 
-(* every wrapper of the GENERATED table that does not coerce its receiver is faithful, for every class that
-   has the target method *)
-Theorem wrappers_faithful_partial :
-  forall cls w msig, In cls classes -> In w wrappers -> w_coerce w = false ->
+(* every wrapper of the GENERATED table is faithful, for every class that has the target method.  (Before the repairs
+   6f38899 / f87860e of sparse.clip this held only for non-coercing wrappers, with a refutation witness.) *)
+Theorem wrappers_faithful :
+  forall cls w msig, In cls classes -> In w wrappers ->
     method_sig tables cls (target_name w) = Some msig -> wrapper_ok msig w = true.
-Proof. exact wrappers_faithful_partial_proof. Qed.
-Print Assumptions wrappers_faithful_partial.
-
-Theorem wrappers_faithful_refuted :
-  exists cls w msig, In cls classes /\ In w wrappers /\ method_sig tables cls (target_name w) = Some msig /\
-    wrapper_ok msig w = false /\ w_coerce w = true /\ wrapper_names_ok msig w = false.
-Proof. exact wrappers_faithful_refuted_proof. Qed.
-Print Assumptions wrappers_faithful_refuted.
+Proof. exact wrappers_faithful_proof. Qed.
+Print Assumptions wrappers_faithful.
 
 Theorem reductions_forward_identically :
   forall cls l name a, In (cls, l) class_attrs -> In (name, a) l -> method_forwards_ok a = true.
@@ -68,7 +59,6 @@ Theorem spellings_agree_partial :
   forall cls op ss s1 s2,
     In cls classes -> In (op, ss) op_classes ->
     supported tables cls ss = true -> clause_single_algorithm cls op = true ->
-    clause_not_coerced cls op = true ->
     In s1 ss -> In s2 ss ->
     resolve tables false FUEL cls s1 = resolve tables false FUEL cls s2.
 Proof. exact spellings_agree_partial_proof. Qed.
@@ -88,12 +78,18 @@ Theorem no_spelling_reaches_a_stub :
 Proof. exact no_spelling_reaches_a_stub_proof. Qed.
 Print Assumptions no_spelling_reaches_a_stub.
 
-Theorem spellings_coerced_refuted :
-  exists op ss s1 s2, In (op, ss) op_classes /\ In s1 ss /\ In s2 ss /\
-    resolve tables false FUEL "GCXS" s1 = LfElemwise "clip" /\
-    resolve tables false FUEL "GCXS" s2 = LfCoerced (LfElemwise "clip").
-Proof. exact spellings_coerced_refuted_proof. Qed.
-Print Assumptions spellings_coerced_refuted.
+(* (the former spellings_coerced_refuted — sparse.clip returned COO for GCXS/DOK — is repaired in /repo; instead:) *)
+Theorem no_spelling_coerces :
+  forall cls op ss s, In cls classes -> In (op, ss) op_classes -> In s ss ->
+    is_coerced_leaf (resolve tables false FUEL cls s) = false.
+Proof. exact no_spelling_coerces_proof. Qed.
+Print Assumptions no_spelling_coerces.
+
+(* the method bodies that duplicate a ufunc path (COO.isnan / isinf) build their result with prune=True, GCXS / DOK
+   delegate to them: the hypothesis under which [coo_map] (which prunes) is their model in unary_paths_agree *)
+Theorem dup_bodies_prune : forall cls m b, In (cls, m, b) dup_bodies -> dup_body_prunes b = true.
+Proof. exact dup_bodies_prune_proof. Qed.
+Print Assumptions dup_bodies_prune.
 
 Theorem unsupported_exception_class_refuted :
   exists op ss s1 s2, In (op, ss) op_classes /\ In s1 ss /\ In s2 ss /\
